@@ -1184,6 +1184,14 @@ class Executor:
                     neg = isinstance(e.ops[0], ast.NotIn)
                     return self.call_function(st, fi_, [vs[1], vs[0]], {}, cx, e,
                                               lambda s_, r_: k(s_, SV(BOOL, z3.Not(self.truth(s_, r_)) if neg else self.truth(s_, r_))))
+            if len(e.ops) == 1 and isinstance(e.ops[0], (ast.Eq, ast.NotEq)) and not cx.spec \
+                    and vs[0].ty.kind == 'ref' and vs[1].ty.kind == 'ref':
+                # a == b on objects of a repository class that defines __eq__: that method decides
+                ci_, fi_ = self.repo.find_method(vs[0].ty.args[0], '__eq__')
+                if fi_ is not None:
+                    neg = isinstance(e.ops[0], ast.NotEq)
+                    return self.call_function(st, fi_, [vs[0], vs[1]], {}, cx, e,
+                                              lambda s_, r_: k(s_, SV(BOOL, z3.Not(self.truth(s_, r_)) if neg else self.truth(s_, r_))))
             conds = []
             for i, op in enumerate(e.ops):
                 conds.append(self.compare(st, op, vs[i], vs[i + 1], cx, e))
